@@ -244,7 +244,7 @@ fn delay_us(t: Tier) -> &'static [u64] {
 	t.pick(&[2000][..], &[500, 2000, 3300][..])
 }
 const NONE: usize = usize::MAX;
-const SCENES: [&str; 7] = ["sound", "delayed-start", "clock", "tween", "delay", "filter", "eq"];
+const SCENES: [&str; 8] = ["sound", "delayed-start", "clock", "tween", "delay", "filter", "eq", "delay, rate changed and changed back"];
 const PLACEMENTS: [&str; 4] = ["main", "sub", "nested", "send"];
 
 #[derive(Clone, Copy, PartialEq, Eq, Hash, Debug)]
@@ -456,14 +456,14 @@ fn grid_case(t: Tier, scene: usize, r1: u32, ctx: &mut Ctx) {
 				let p = Plan { r1, r2, k, ibs };
 				let variants: Vec<(u64, usize)> = match scene {
 					0 => sound_rates(t).iter().map(|s| (*s as u64, 0)).collect(),
-					4 => delay_us(t).iter().flat_map(|d| (0..4).map(move |pl| (*d, pl))).collect(),
+					4 | 7 => delay_us(t).iter().flat_map(|d| (0..4).map(move |pl| (*d, pl))).collect(),
 					_ => vec![(0, 0)],
 				};
 				for (a, b) in variants {
 					ctx.evals += 1;
 					ctx.traces += 1;
 					ord += 1;
-					let what = || format!("scene {} [{}{}]: {}", SCENES[scene], if scene == 0 { format!("sound rate {} Hz", a) } else if scene == 4 { format!("delay_time {} us on the {} track", a, PLACEMENTS[b]) } else { String::new() }, "", p.text());
+					let what = || format!("scene {} [{}{}]: {}", SCENES[scene], if scene == 0 { format!("sound rate {} Hz", a) } else if scene == 4 || scene == 7 { format!("delay_time {} us on the {} track{}", a, PLACEMENTS[b], if scene == 7 { "; the rate returns to the first rate immediately before callback 6" } else { "" }) } else { String::new() }, "", p.text());
 					ctx.sample(ord, what);
 					let mut fails: Vec<(String, String)> = vec![];
 					let r = catch(|| match scene {
@@ -471,7 +471,14 @@ fn grid_case(t: Tier, scene: usize, r1: u32, ctx: &mut Ctx) {
 						1 => scene_start(&p, false, &mut fails),
 						2 => scene_start(&p, true, &mut fails),
 						3 => scene_tween(&p, &mut fails),
-						4 => scene_delay(&p, a, b, &mut fails),
+						4 => scene_delay(&p, a, b, false, &mut fails),
+						7 => {
+							if p.k == NONE || p.k > 2 {
+								Ok((false, 0))
+							} else {
+								scene_delay(&p, a, b, true, &mut fails)
+							}
+						}
 						_ => scene_corner(&p, scene == 6, &mut fails),
 					});
 					let obs = match r {
@@ -741,24 +748,38 @@ fn delay_fx(us: u64, wet: bool, fb: Option<Arc<FxState>>) -> Box<dyn Effect> {
 	b.build().0
 }
 
-fn scene_delay(p: &Plan, us: u64, placement: usize, fails: &mut Vec<(String, String)>) -> SceneObs {
+fn scene_delay(p: &Plan, us: u64, placement: usize, roundtrip: bool, fails: &mut Vec<(String, String)>) -> SceneObs {
 	let ncb = NCB_FX;
 	let mut pl = place(p, placement, ncb, delay_fx(us, placement == 3, None))?;
 	warm(&mut pl.w)?;
 	let f = pl.fire.clone();
-	let starts = drive(&mut pl.w, p, ncb, &mut |_w, j| {
-		if j == 0 || j == 8 {
+	let mut back_err = None;
+	let r1 = p.r1;
+	let starts = drive(&mut pl.w, p, ncb, &mut |w, j| {
+		if roundtrip && j == 6 {
+			// the device returns to its first rate
+			if let Err(e) = w.change(r1) {
+				back_err = Some(e);
+			}
+		}
+		if (j == 0 && !roundtrip) || j == 8 {
 			fire(&f, 0.5);
 		}
 	})?;
+	if let Some(e) = back_err {
+		return Err(e);
+	}
 	let rec = pl.w.rec();
 	tap_verdict(&pl.w, p, fails);
 	let want = us as f64 * 1e-6;
 	let mut oh = vec![];
 	let mut seen = false;
-	for (a, b, rate, after) in windows(p, &starts) {
+	let wins = if roundtrip { vec![(starts[8], starts[12], p.r1, true)] } else { windows(p, &starts) };
+	for (a, b, rate, after) in wins {
 		let short = (want * rate as f64) < p.ibs as f64;
-		let feat = if after { format!("after a rate change, effect on the {} track", PLACEMENTS[placement]) } else { format!("constant rate, delay {} one internal buffer", if short { "shorter than" } else { "at least" }) };
+		let feat = if roundtrip {
+			format!("after the rate changed and changed back, effect on the {} track", PLACEMENTS[placement])
+		} else if after { format!("after a rate change, effect on the {} track", PLACEMENTS[placement]) } else { format!("constant rate, delay {} one internal buffer", if short { "shorter than" } else { "at least" }) };
 		match echo_time(&rec, a, b) {
 			Err(e) => fails.push((format!("delay: unexpected echo pattern :: {}", feat), format!("{} (window at {} Hz)", e, rate))),
 			Ok(e) => {
